@@ -226,6 +226,8 @@ class AoefSim:
             self.do_load(op)
         elif kind == "touch":
             self.do_touch(op)
+        elif kind in ("copy", "rename"):
+            self.do_copy(op)
         elif kind == "restart":
             self.restart(op["node"])
             self.record(op, "ok")
@@ -240,6 +242,26 @@ class AoefSim:
             self.probes.hit("clock-jump-back" if op["seconds"] < 0 else "clock-jump")
         else:
             raise HarnessError(f"unknown op {kind}")
+
+    def do_copy(self, op):
+        """Another tool copies / renames a stored document (cp, mv, rsync)."""
+        src, dst = op["src"] % len(FILES), op["dst"] % len(FILES)
+        raw = self.read_bytes(src)
+        if raw is None or src == dst:
+            return self.record(op, "skipped")
+        target = self.abspath(dst)
+        os.makedirs(os.path.dirname(target), exist_ok=True)
+        if op["op"] == "rename":
+            os.replace(self.abspath(src), target)
+            self.files[dst] = self.files.pop(src, {"status": "absent"})
+            self.files[src] = {"status": "absent"}
+        else:
+            with open(target, "wb") as fp:
+                fp.write(raw)
+            self.files[dst] = dict(self.files.get(src, {"status": "absent"}))
+        self.record(op, "ok", doc=sha(raw))
+        self.trace.append((op["op"], self.files[dst].get("status")))
+        self.probes.hit(f"file:{op['op']}-by-another-tool")
 
     def do_touch(self, op):
         """In-place edit of live objects a node already holds."""
@@ -737,6 +759,9 @@ class _Gen:
     def how(self):
         return self.rng.choice(["str", "path"])
 
+    def path_how(self):
+        return self.rng.choice(["str", "path", "str", "path", "rel"])
+
     def api(self):
         return self.rng.choice(self.cfg["apis"])
 
@@ -805,7 +830,7 @@ class _Gen:
             "root": root or self.root(),
             "path": p,
             "node": n,
-            "path_as": self.how(),
+            "path_as": self.path_how(),
             "audio": audio,
             "audio_as": self.how(),
             "api": self.api(),
@@ -842,7 +867,7 @@ class _Gen:
             "path": p,
             "node": n,
             "h": h,
-            "path_as": self.how(),
+            "path_as": self.path_how(),
             "audio": audio,
             "audio_as": self.how(),
             "api": self.api(),
@@ -961,6 +986,24 @@ class _Gen:
             n = self.rng.choice([n, self.other_node(n)])
         self.load(p, n=n, audio=audio)
 
+    def pat_copy(self):
+        """A document is copied / moved over another one by another tool."""
+        a = self.ensure_world(0)
+        b = self.ensure_world(1)
+        n = self.node()
+        p1, p2 = self.rng.sample(range(len(FILES)), 2)
+        aud1, aud2 = self.audio_for_save(a), self.audio_for_save(b)
+        self.save(a, p=p1, n=n, audio=aud1, fault=None)
+        self.save(b, p=p2, n=self.rng.choice([n, self.other_node(n)]),
+                  audio=aud2, fault=None)
+        if self.rng.random() < 0.6:
+            self.load(p2, n=n, audio=aud2)  # the target was read before
+        self.emit({"op": self.rng.choice(["copy", "rename"]),
+                   "src": p1, "dst": p2})
+        self.saved[p2] = aud1
+        self.load(p2, n=n, audio=aud1)
+        self.load(p2, n=self.other_node(n), audio=aud1)
+
     def pat_restart(self):
         k = self.ensure_world()
         n = self.node()
@@ -1021,6 +1064,7 @@ PATTERNS = {
         ("pat_cycle", 3),
         ("pat_restart", 1),
         ("pat_relocate", 1),
+        ("pat_copy", 2),
         ("pat_random", 4),
     ],
     "C02": [
@@ -1032,6 +1076,7 @@ PATTERNS = {
         ("pat_cycle", 3),
         ("pat_fault_heal", 1),
         ("pat_overwrite", 1),
+        ("pat_copy", 1),
         ("pat_random", 3),
     ],
     "C18": [
@@ -1041,6 +1086,7 @@ PATTERNS = {
         ("pat_roundtrip", 2),
         ("pat_cycle", 1),
         ("pat_fault_heal", 1),
+        ("pat_copy", 1),
         ("pat_random", 2),
     ],
 }
@@ -1129,6 +1175,9 @@ CORE_PROBES = {
         "save:overwrite-with-shorter",
         "save:success-after-failed-save",
         "touch:live-objects-edited-in-place",
+        "file:copy-by-another-tool",
+        "file:rename-by-another-tool",
+        "save:path-as-rel",
     ]
     + [f"load:checked:{t}" for t in COLLECTION_TYPE.values()]
     + WRITE_FAULTS
